@@ -21,6 +21,9 @@ type ctx struct {
 	Thor   bool
 	Replay string
 	R      *vc.Report
+	// AlsoProps: violations an engine tags with one of these properties count
+	// as violations of Prop in this run (C20 reuses the dataflow oracles).
+	AlsoProps []string
 }
 
 // pick returns q in the quick tier and t in the thorough tier.
